@@ -17,6 +17,7 @@ import PygProofs.Lemmas.AmbiguityLemmas
 import PygProofs.Lemmas.SqueezeLemmas
 import PygProofs.Lemmas.NpDateLemmas
 import PygProofs.Lemmas.MonthNameLemmas
+import PygProofs.Lemmas.MonthNameStrLemmas
 
 namespace Pyg.Props.C04
 open Pyg Pyg.Bump Pyg.DateParse Pyg.Gen Pyg.Greg Pyg.NpDate
@@ -481,6 +482,24 @@ theorem month_name_text (uk : Bool) (y m d : Nat) (v : Valid y m d) (w dd yy tm 
     simp only [Option.map_some]
     rw [if_neg ht.nonneg, decide_plain uk y m d v hms us]
 
+/-- the same for `dt(<string>)` itself (`dtStr`: `strip`, the blank handling, then the reading): the month-name spellings pass
+`strip` and `squeeze` unchanged -/
+theorem month_name_str (uk : Bool) (y m d : Nat) (v : Valid y m d) (w dd yy tm : List Char) (hms us : Int)
+    (hw : IsMonthName m w) (hdd : IsNumeral 2 dd) (hyy : IsNumeral 4 yy) (hy4 : yy.length = 4)
+    (vd : digitsVal dd = d) (vy : digitsVal yy = y) (ht : TimeText tm hms us) :
+    (∀ s, s = ' ' ∨ s = '-' → dtStr uk (String.ofList (dd ++ s :: (w ++ s :: (yy ++ tm)))) = some (checkRange (mkDate y m d + hms + us)))
+    ∧ dtStr uk (String.ofList (w ++ ' ' :: (dd ++ ',' :: ' ' :: (yy ++ tm)))) = some (checkRange (mkDate y m d + hms + us))
+    ∧ dtStr uk (String.ofList (w ++ ' ' :: (dd ++ ' ' :: (yy ++ tm)))) = some (checkRange (mkDate y m d + hms + us)) := by
+  have h := month_name_text uk y m d v w dd yy tm hms us hw hdd hyy hy4 vd vy ht
+  refine ⟨fun s hs => ?_, ?_, ?_⟩
+  · unfold dtStr; rw [String.toList_ofList, clean_dMy m dd w yy tm s hms us hs hdd hw hyy ht]; exact h.1 s hs
+  · unfold dtStr; rw [String.toList_ofList, clean_Mdy_comma m dd w yy tm hms us hdd hw hyy ht]; exact h.2.1
+  · unfold dtStr; rw [String.toList_ofList, clean_Mdy m dd w yy tm hms us hdd hw hyy ht]; exact h.2.2
+
+example : dtStr true "13 Sept 2000 10:30" = some (.ok (mkDate 2000 9 13 + 37800000000))
+    ∧ dtStr false "  January 1, 2000T23:59:59.999999\n" = some (.ok (mkDate 2000 1 1 + 86399999999)) :=
+  ⟨eq_of_okView (by decide +kernel), eq_of_okView (by decide +kernel)⟩
+
 /-- the date alone, as `strftime` writes it (`%d %B %Y`, `%d-%b-%Y`, `%B %d, %Y`, …): midnight of the day -/
 theorem month_name_date_text (uk : Bool) (y m d : Nat) (v : Valid y m d) (w : List Char) (hw : IsMonthName m w) :
     dtCs uk (pad2 d ++ ' ' :: (w ++ ' ' :: (pad4 y ++ []))) = some (.ok (mkDate y m d))
@@ -853,6 +872,24 @@ theorem numpy_timestamp (t : Int) (h0 : mkDate 1900 1 1 ≤ t) (h1 : t < mkDate 
     have := np2dt_roundtrip_ns t (ns_representable t (by omega) h2)
     exact ⟨_, this.1, this.2⟩
 
+/-- `ymd(np.datetime64(t, u))` for the units D … us and ns: midnight of `t`'s day (truncating to the unit never leaves the day) -/
+theorem numpy_ymd (u : NpUnit) (k : Int) (hk : u.micros = some k) (hW : u ≠ .W) (t : Int) (h0 : 0 ≤ t) (h1 : t < MAXUS) :
+    (dtOfNp t u).bind ymdPy = some (dropTime t) := by
+  rw [np2dt_roundtrip u k hk hW t h0 h1]
+  simp only [Option.bind_some, ymdPy, Option.some.injEq]
+  have hk' : 0 ≤ t - t % k ∧ t - t % k < MAXUS ∧ (t - t % k) - (t - t % k) % DAYUS = t - t % DAYUS := by
+    unfold DAYUS
+    cases u <;> simp only [NpUnit.micros, Option.some.injEq, reduceCtorEq] at hk <;> try (exact absurd rfl hW)
+    all_goals subst hk
+    all_goals omega
+  rw [dropTime_eq _ hk'.1 hk'.2.1, dropTime_eq t h0 h1, hk'.2.2]
+
+theorem numpy_ymd_ns (t : Int)
+    (h : -9223372036854775808 < (t - EPOCH) * 1000 ∧ (t - EPOCH) * 1000 < 9223372036854775808) :
+    (dtOfNp t .ns).bind ymdPy = some (dropTime t) := by
+  rw [(np2dt_roundtrip_ns t h).1]
+  simp only [Option.bind_some, ymdPy, Option.some.injEq]
+  congr 1; omega
 example : dtOfNp 63083133040000050 .ms = some (.datetime 63083133040000000) ∧ dtOfNp 63083133040000050 .D = some (.datetime 63083059200000000)
     ∧ dtOfNp 63083133040000050 .W = some (.datetime 63082713600000000) ∧ dtOfNp 63083133040000050 .M = some (.datetime (mkDate 2000 1 1))
     ∧ dtOfNp 63083133040000050 .ns = some (.stamp 947536240000050000) := by decide +kernel
